@@ -23,10 +23,11 @@ Record cfg := {
   fx_print  : bool;  (* value.c val_print: recursion depth bounded *)
   fx_arr    : bool;  (* vm.c OP_ARR_GET/SET/POP/REMOVE: out-of-range traps (C08) *)
   fx_npop   : bool;  (* transpiler: emitted array_pop aborts when dyn_array_pop_* reports failure (C08) *)
-  fx_ipop   : bool   (* eval.c builtin_array_pop: empty array is a runtime error (C08) *)
+  fx_ipop   : bool;  (* eval.c builtin_array_pop: empty array is a runtime error (C08) *)
+  fx_strict : bool   (* nvm_format.c: a table section must consist of whole entries (an overrunning entry or left-over bytes refuse the file) *)
 }.
-Definition cfg_pinned : cfg := Build_cfg false false false false false false false false false.
-Definition cfg_fixed  : cfg := Build_cfg true true true true true true true true true.
+Definition cfg_pinned : cfg := Build_cfg false false false false false false false false false false.
+Definition cfg_fixed  : cfg := Build_cfg true true true true true true true true true true.
 
 Definition two32 : N := 4294967296.
 Definition u32 (x : N) : N := x mod two32.
@@ -107,6 +108,10 @@ Definition append_code (data : list byte) (size : N) (m : module) (off n : N) : 
       end
   end.
 
+(* after the entry loop of a table section: repaired loader refuses left-over bytes (pos != sec_size) *)
+Definition tail_ok (c : cfg) (pos ssz : N) (m : module) : lres :=
+  if fx_strict c && negb (pos =? ssz) then LReject else Loaded m.
+
 (* STRINGS: while (pos + 4 <= sec_size) { slen = u32 at pos; pos += 4; if (pos + slen > sec_size) break; add; pos += slen } *)
 Fixpoint load_strings (c : cfg) (fuel : nat) (data : list byte) (size base ssz pos : N) (m : module) : lres :=
   match fuel with
@@ -119,16 +124,16 @@ Fixpoint load_strings (c : cfg) (fuel : nat) (data : list byte) (size base ssz p
         let pos1 := add32 pos 4 in
         let over := if fx_slen c then (ssz - pos1 <? slen) (* slen > sec_size - pos, pos <= sec_size *)
                     else (ssz <? add32 pos1 slen) in
-        if over then Loaded m else
+        if over then (if fx_strict c then LReject else Loaded m) else
         match rd data size (base + pos1) slen with
         | None => LCrash                       (* memcmp/memcpy of slen bytes leaves the buffer (or malloc(slen+1) wrapped to 0) *)
         | Some s => load_strings c k data size base ssz (add32 pos1 slen) (add_string m s)
         end
       end
-    else Loaded m
+    else tail_ok c pos ssz m
   end.
 
-Fixpoint load_funs (fuel : nat) (data : list byte) (size base ssz pos : N) (m : module) : lres :=
+Fixpoint load_funs (c : cfg) (fuel : nat) (data : list byte) (size base ssz pos : N) (m : module) : lres :=
   match fuel with
   | O => LFuel
   | S k =>
@@ -136,27 +141,27 @@ Fixpoint load_funs (fuel : nat) (data : list byte) (size base ssz pos : N) (m : 
       match rd_u32 data size (base + pos), rd_u16 data size (base + add32 pos 4), rd_u32 data size (base + add32 pos 6),
             rd_u32 data size (base + add32 pos 10), rd_u16 data size (base + add32 pos 14), rd_u16 data size (base + add32 pos 16) with
       | Some a, Some b, Some c0, Some d, Some e, Some f =>
-          load_funs k data size base ssz (add32 pos 18)
+          load_funs c k data size base ssz (add32 pos 18)
             (add_fn m {| f_name := a; f_arity := b; f_off := c0; f_len := d; f_locals := e; f_upvals := f |})
       | _, _, _, _, _, _ => LCrash
       end
-    else Loaded m
+    else tail_ok c pos ssz m
   end.
 
-Fixpoint load_debug (fuel : nat) (data : list byte) (size base ssz pos : N) (m : module) : lres :=
+Fixpoint load_debug (c : cfg) (fuel : nat) (data : list byte) (size base ssz pos : N) (m : module) : lres :=
   match fuel with
   | O => LFuel
   | S k =>
     if add32 pos 8 <=? ssz then
       match rd_u32 data size (base + pos), rd_u32 data size (base + add32 pos 4) with
-      | Some a, Some b => load_debug k data size base ssz (add32 pos 8) (add_debug m (a, b))
+      | Some a, Some b => load_debug c k data size base ssz (add32 pos 8) (add_debug m (a, b))
       | _, _ => LCrash
       end
-    else Loaded m
+    else tail_ok c pos ssz m
   end.
 
 (* IMPORTS: while (pos + 11 <= sec_size) { 4,4,2,1 bytes; if (pos + param_count > sec_size) break; copy param_count bytes } *)
-Fixpoint load_imports (fuel : nat) (data : list byte) (size base ssz pos : N) (m : module) : lres :=
+Fixpoint load_imports (c : cfg) (fuel : nat) (data : list byte) (size base ssz pos : N) (m : module) : lres :=
   match fuel with
   | O => LFuel
   | S k =>
@@ -165,15 +170,15 @@ Fixpoint load_imports (fuel : nat) (data : list byte) (size base ssz pos : N) (m
             rd_u16 data size (base + add32 pos 8), rd_u8 data size (base + add32 pos 10) with
       | Some a, Some b, Some pc, Some rt =>
           let pos1 := add32 pos 11 in
-          if ssz <? add32 pos1 pc then Loaded m else
+          if ssz <? add32 pos1 pc then (if fx_strict c then LReject else Loaded m) else
           match rd data size (base + pos1) pc with
           | None => LCrash
-          | Some pts => load_imports k data size base ssz (add32 pos1 pc)
+          | Some pts => load_imports c k data size base ssz (add32 pos1 pc)
                           (add_imp m {| i_mod := a; i_fn := b; i_pc := pc; i_ret := rt; i_ptypes := pts |})
           end
       | _, _, _, _ => LCrash
       end
-    else Loaded m
+    else tail_ok c pos ssz m
   end.
 
 Definition SEC_CODE := 1. Definition SEC_STRINGS := 2. Definition SEC_FUNCTIONS := 3.
@@ -183,9 +188,9 @@ Definition load_section (c : cfg) (data : list byte) (size : N) (m : module) (ty
   let fuel := S (length data) in
   if ty =? SEC_STRINGS then load_strings c fuel data size off ssz 0 m
   else if ty =? SEC_CODE then match append_code data size m off ssz with Some m' => Loaded m' | None => LCrash end
-  else if ty =? SEC_FUNCTIONS then load_funs fuel data size off ssz 0 m
-  else if ty =? SEC_DEBUG then load_debug fuel data size off ssz 0 m
-  else if ty =? SEC_IMPORTS then load_imports fuel data size off ssz 0 m
+  else if ty =? SEC_FUNCTIONS then load_funs c fuel data size off ssz 0 m
+  else if ty =? SEC_DEBUG then load_debug c fuel data size off ssz 0 m
+  else if ty =? SEC_IMPORTS then load_imports c fuel data size off ssz 0 m
   else Loaded m.
 
 (* the section directory loop, i = 0 .. section_count-1; [dend] accumulates max(dir_end, offset_i + size_i) in uint32_t for the
